@@ -163,7 +163,7 @@ func runC05FlowRetries(c *Cfg) {
 		r.EvalN(1)
 		for p := 0; p < len(ref); p++ {
 			v := base.Clone()
-			v.Inject = scen.Inject{Kind: []string{"cancel", "deadline", "cancel-cause"}[(i+p)%3], At: p}
+			v.Inject = scen.Inject{Kind: []string{"cancel", "deadline", "cancel-cause", "cancel-far"}[(i+p)%4], At: p}
 			o := scen.NewExec(v).RunOnce()
 			r.EvalN(1)
 			r.Count("inject.flow_with_retries", 1)
@@ -390,6 +390,8 @@ func runC05(c *Cfg) {
 		kinds := []string{"cancel", "deadline"}
 		if i%3 == 0 {
 			kinds = []string{"cancel-cause", "deadline"}
+		} else if i%3 == 1 {
+			kinds = []string{"cancel-far", "deadline"} // cancelled by hand although the context's own deadline is hours away
 		}
 		for p := 0; p < len(ref); p++ {
 			for _, k := range kinds {
@@ -410,7 +412,7 @@ func runC05(c *Cfg) {
 				}
 			}
 		}
-		for _, k := range []string{"pre-cancel", "pre-deadline", "pre-expired"} {
+		for _, k := range []string{"pre-cancel", "pre-deadline", "pre-expired", "pre-cancel-far"} {
 			v := base.Clone()
 			v.Inject = scen.Inject{Kind: k}
 			if i%2 == 0 {
